@@ -67,6 +67,29 @@ class TemplateDef:
 TEMPLATES = {}
 
 
+def complex_capable(tdef, tries=12):
+    """Can this template draw a Call whose differentiable arguments may be complex?  (probed with fixed choice streams)"""
+    from ..case import ReplayCase
+
+    class Probe(ReplayCase):
+        def __init__(self, k):
+            super().__init__([])
+            self._k = k
+            self._n = 0
+
+        def _draw(self, lo, hi):
+            self._n += 1
+            return lo + (self._k * 7919 + self._n * 104729) % (hi - lo + 1)
+
+    for k in range(tries):
+        try:
+            if tdef.draw(Probe(k)).cplx:
+                return True
+        except Exception:
+            continue
+    return False
+
+
 def template(name, family, weight=1, has_kink=False):
     def deco(fn):
         TEMPLATES[name] = TemplateDef(name, fn, family, weight, has_kink)
